@@ -3,7 +3,7 @@
 (* behaviours), judged by TLC: every log node is one TLC state; C01/C02/C03/C09/C10 formulas are evaluated *)
 (* on the recorded (pre-state, step, post-state) triples; Conf_* compare the step with the specification's *)
 (* action operators (VaultSpec.tla).                                                                        *)
-EXTENDS Harbor, VaultSpec, TLC, Json
+EXTENDS Harbor, VaultSpec, Sweep, TLC, Json
 CONSTANT LogFile
 Log == ndJsonDeserialize(LogFile)
 NLog == Len(Log)
@@ -124,7 +124,6 @@ MaxLen(i, vid) ==
   LET nd == Nd(i) IN
   IF IsRoot(nd) \/ ~StillBad(Cfg(nd), Pre(nd), vid) THEN Len(Post(nd).vaults)
   ELSE Max2(Len(Post(nd).vaults), MaxLen(nd.parent, vid))
-CeilDiv(a, b) == (a + b - 1) \div b
 C09Live(i) == LET nd == Nd(i) IN
   nd.a = "Block" => \A v \in Range(Post(nd).vaults) :
      BadBlocks(i, v.id) <= 2 * CeilDiv(MaxLen(i, v.id), Cfg(nd).batch)
@@ -169,7 +168,18 @@ C10PenaltyRouted(nd) == Closing(nd) /\ BidAuction(nd).dutch /\ BidLocked(nd).ini
        inc == IF l.ikeeper THEN FloorMul(l.fee, Cfg(nd).keeperIncentive) ELSE 0
    IN Post(nd).bal.collectorV1[Debt] - Pre(nd).bal.collectorV1[Debt] = l.fee - inc
 
-(* ------------------------------------ conformance (VaultSpec) ------------------------------------ *)
+(* ------------------------------------ conformance (Sweep, VaultSpec) ------------------------------------ *)
+(* a block's vault sweep is exactly the step of spec/sweep/Sweep.tla: window from (count, offset, batch), the   *)
+(* unsafe and enabled vaults inside the window are seized, offset := window end                                  *)
+IdSeq(S) == [k \in 1..Len(S.vaults) |-> S.vaults[k].id]
+ConfBlock(nd) == nd.a = "Block" /\ Ok(nd) =>
+   LET C == Cfg(nd) S == Pre(nd)
+       UU == {v.id : v \in {x \in Range(S.vaults) : Unsafe(C, S, x) /\ Enabled(C, S, x)}}
+       r == SweepStep(IdSeq(S), S.offset, C.batch, UU)
+   IN /\ IdSeq(Post(nd)) = r.list
+      /\ Post(nd).offset = r.offset
+      /\ {l.orig : l \in Seized(nd)} = r.seized
+
 ConfVault(nd) == nd.a \in VaultOps /\ ~Cfg(nd).interest /\ ~IsRoot(nd) => VaultStepConforms(Cfg(nd), Pre(nd), nd.a, nd.args, Ok(nd), Post(nd))
 
 Formulas == <<"C01_Custody", "C01_Count", "C01_TotalsColl", "C01_TotalsMinted", "C01_TotalsIds",
@@ -178,7 +188,7 @@ Formulas == <<"C01_Custody", "C01_Count", "C01_TotalsColl", "C01_TotalsMinted", 
               "C09_OnlyUnsafe", "C09_SeizeExact", "C09_CustodyMoves", "C09_Live",
               "C10_PaidWithinTarget", "C10_ReceivedWithinSeized", "C10_PostedPrice", "C10_PriceFalls", "C10_PriceInBand",
               "C10_StartPrice", "C10_CustodyColl", "C10_CustodyDebt", "C10_OwnerGetsRest", "C10_PenaltyRouted",
-              "Conf_Vault">>
+              "Conf_Vault", "Conf_Block">>
 Holds(f, i) ==
   LET nd == Nd(i) IN
   CASE f = "C01_Custody" -> C01Custody(nd)
@@ -211,6 +221,7 @@ Holds(f, i) ==
     [] f = "C10_OwnerGetsRest" -> C10OwnerGetsRest(nd)
     [] f = "C10_PenaltyRouted" -> C10PenaltyRouted(nd)
     [] f = "Conf_Vault" -> ConfVault(nd)
+    [] f = "Conf_Block" -> ConfBlock(nd)
 
 Judge == \A k \in 1..Len(Formulas) : Holds(Formulas[k], cur) \/ PrintT(<<"FAIL", Formulas[k], cur>>)
 
@@ -229,6 +240,8 @@ Stats == PrintT(<<"STATS", [nodes |-> NLog,
    priceChecks |-> Cnt(LAMBDA nd : BidOk(nd) /\ ~OwnBid(nd) /\ Received(nd) > 1),
    auctionBlocks |-> Cnt(LAMBDA nd : nd.a = "Block" /\ Len(Post(nd).auctions) > 0),
    blocks |-> Cnt(LAMBDA nd : nd.a = "Block"),
+   longWaits |-> Cardinality({i \in 1..NLog : Nd(i).a = "Block" /\ \E v \in Range(Post(Nd(i)).vaults) : BadBlocks(i, v.id) >= 2}),
+   sweepRuns |-> Cnt(LAMBDA nd : IsRoot(nd) /\ nd.run \in {"sweepsim", "sweepadv"}),
    confChecked |-> Cnt(LAMBDA nd : nd.a \in VaultOps /\ ~Cfg(nd).interest /\ ~IsRoot(nd)) ]>>)
 AllSeen == Stats /\ TLCGet("stats").distinct = NLog
 =============================================================================
